@@ -76,4 +76,9 @@ TEXT = {
   "note": "Oracle is the generator's own bookkeeping; source names are predicted from the monitor's count of interned sources (read through the dump hook before each submission).",
   "technique": "planted-failure monitor: generator bookkeeping vs last_err_location()/pretty_error(), plus debug-map/code length invariant at the hook",
  },
+ "C06": {
+  "level": "Exploration: random sequences of every parsing word with hostile size arguments (incl. values around 2^32, 2^61, 2^63, 2^64 and the i128 limits) and nested open/close are mirrored on a cursor model; offset, remain, input, returned values and the data stack are compared after every word, and a refused word must move nothing. Release and overflow-checked builds.",
+  "note": "Trusts the harness cursor model and its number decoders (little-endian on the value's 8-bit groups, as C05). Inputs <= 199 bits, nesting <= 12.",
+  "technique": "reference-model monitor (cursor stack + decoders) over random word histories with boundary-value size arguments",
+ },
 }
